@@ -184,3 +184,25 @@ Proof.
   unfold configured_for. rewrite existsb_exists. intros [[fp' k'] [Hin H]]. simpl in H.
   apply andb_true_iff in H as [H1 H2]. apply N.eqb_eq in H2. subst. exists fp'. auto.
 Qed.
+
+(* cryptohandler's size limit is the 1 MiB of the statement and of the model *)
+Lemma link_max_bytes : C04_Gen.maxBytes = max_bytes /\ max_bytes = 1024 * 1024 /\ enc_body_limit = max_bytes.
+Proof. repeat split; reflexivity. Qed.
+
+(* codes.Acceptable: the first clause of its switch lists exactly the codes the model counts as breaker
+   failures (grpc numbering), and Unauthenticated (16) is not among them *)
+Definition grpc_code (name : string) : Z :=
+  if name =? "codes.DeadlineExceeded" then 4 else if name =? "codes.Internal" then 13
+  else if name =? "codes.Unavailable" then 14 else if name =? "codes.DataLoss" then 15
+  else if name =? "codes.Unimplemented" then 12 else if name =? "codes.Unauthenticated" then 16 else -1.
+
+Lemma link_acceptable :
+  map (fun row => (map grpc_code (fst row), snd row)) C04_Gen.acceptable_cases = [(unacceptable_codes, "false"); ([], "true")].
+Proof. reflexivity. Qed.
+
+Lemma link_unauthenticated_acceptable : codes_acceptable rpc_unauthenticated = true /\ codes_acceptable rpc_internal = false.
+Proof. split; reflexivity. Qed.
+
+(* the built-in chains end with the breaker interceptor, user interceptors are appended after them *)
+Lemma link_breaker_interceptor : C04_Gen.unary_breaker_calls = ["handler"; "return"; "breaker.DoWithAcceptable"; "return"].
+Proof. reflexivity. Qed.
